@@ -585,6 +585,17 @@ func (w *metaWorld) run(c *engine.Ctx, mc metaCase) {
 		r.Violation("client-state-differs:"+mc.State, "ClientState differs from the state the node supplied (state kind "+mc.State+")", mc)
 	default:
 		r.Count("states_equal:"+mc.State, 1)
+		// what the connection reports about its client does not change when the application closes it (a handler
+		// that logs "who was that" in a deferred call after its deferred Close)
+		before := pc.ClientNextProtos()
+		_ = pc.Close()
+		if after := pc.ClientNextProtos(); !reflect.DeepEqual(before, after) {
+			r.Violation("client-next-protos-differ:after-close", fmt.Sprintf("ClientNextProtos reported %d entries while the connection was open and %d after the application closed it", len(before), len(after)), mc)
+		} else if !stateEqual(pc.ClientState(), expectState) {
+			r.Violation("client-state-differs:after-close", "ClientState differs from the state the node supplied once the application has closed the connection (state kind "+mc.State+")", mc)
+		} else {
+			r.Count("metadata_unchanged_after_close", 1)
+		}
 	}
 }
 
